@@ -187,6 +187,23 @@ package webtransport
 //@   ensures [C13.werr0]    result1 != nil ==> w.c.stream.$writes == old(w.c.stream.$writes)
 //@   ensures [C13.posok]    result1 == nil && old(w.err) == nil ==> 9 <= w.pos && w.pos <= len(w.c.writeBuf)
 
+// WriteString is Write for a string: the bytes of the string are appended to the frame under construction, no frame leaves
+//@ func (*messageWriter).WriteString(p)
+//@   props C13, C09
+//@   requires w != nil && w.c != nil && w.c.stream != nil && !w.c.isWriting
+//@   requires w.err == nil ==> len(w.c.writeBuf) > 9 && 9 <= w.pos && w.pos <= len(w.c.writeBuf) && (w.frameType == TextMessage || w.frameType == BinaryMessage)
+//@   modifies w.pos, w.frameType, w.err, w.c.writer, w.c.writeBuf, w.c.isWriting, w.c.writeErr, w.c.stream.$writes, Mem(w.c.writeBuf)
+//@   loop 1 invariant 0 <= len(p) && len(p) <= nn && nn == len(old(p))
+//@   loop 1 invariant w.err == nil && !w.c.isWriting && w.c.writeBuf == old(w.c.writeBuf) && 9 <= w.pos && w.pos <= len(w.c.writeBuf)
+//@   loop 1 invariant w.frameType == old(w.frameType) && w.c.stream.$writes == old(w.c.stream.$writes)
+//@   loop 1 invariant w.pos == old(w.pos) + (nn - len(p))
+//@   loop 1 decreases len(p)
+//@   ensures [C13.ws.oneframe] result1 == nil ==> w.c.stream.$writes == old(w.c.stream.$writes)
+//@   ensures [C13.ws.count]    result1 == nil && old(w.err) == nil ==> result0 == len(old(p)) && w.pos == old(w.pos) + len(old(p)) && w.err == nil
+//@   ensures [C13.ws.sameBuf]  result1 == nil && old(w.err) == nil ==> w.c.writeBuf == old(w.c.writeBuf) && w.frameType == old(w.frameType) && !w.c.isWriting
+//@   ensures [C13.ws.errw]     old(w.err) != nil ==> result1 == old(w.err) && result0 == 0
+//@   ensures [C13.ws.werr0]    result1 != nil ==> w.c.stream.$writes == old(w.c.stream.$writes)
+
 //@ func (*messageWriter).Close()
 //@   props C13, C09
 //@   requires w != nil && w.c != nil && w.c.stream != nil && !w.c.isWriting
